@@ -112,6 +112,9 @@ def r0(ctx, P, Q, qname):
             continue
         g = P.fns.get(fid)
         if g is None or not g.is_def:
+            from ..effects import _fully_inlined
+            if f.d.get('_new_helper') and _fully_inlined(Q, f):
+                continue        # a helper extracted from reviewed code: analysed where it was inlined
             ctx.instance(rid, ['only-parallel', f.name], {'function': fid, 'reviewed': REVIEWED_ONLY_PAR.get(f.name)})
             if f.name not in REVIEWED_ONLY_PAR:
                 ctx.finding(rid, fid, 'only-parallel', '%s exists only in the PARALLELIZE build and is not in the reviewed table: its effects on shared solver state are not covered by R1-R6' % f.name, loc=f.loc)
